@@ -32,12 +32,12 @@ import (
 //	gateway-services:RaftIndex:rebuilt-at-config-entry-modifyindex   restored Create==Modify==ModifyIndex of the gateway's config entry
 //	gateway-services:ServiceKind:kind-empty-after-restore    ServiceKind "service" (set when an instance registered after the config entry) → "" for
 //	                                                          wildcard rows and ingress / api gateway rows, which the config-entry path rebuilds without a kind
-//	gateway-services:wildcard-overwrites-explicit-online     original row FromWildcard, restored row explicit, config entry lists service AND "*"
+//	gateway-services:wildcard-overwrites-explicit-online     original row FromWildcard (or deleted again as a wildcard row), restored row explicit,
+//	                                                          config entry lists the service AND "*"
 //	gateway-services:rows-lost:proxy-without-destination-instance   lost wildcard row created online by a proxy registration for a service that has no
 //	                                                          local typical instance with a local connect instance (what restore's expansion walks)
 //	mesh-topology:rows-lost:proxy-without-destination-instance      its twin (Upstream = that service, Downstream = the gateway)
 //	gateway-services:rows-lost:wildcard-row-stale-online     lost wildcard row of a service that restore's expansion rule (restoreWouldExpand) skips
-//	mesh-topology:rows-lost:wildcard-row-stale-online        its twin
 //	mesh-topology:rows-lost:stale-row-of-vanished-proxy-online      lost row none of whose Refs (node/serviceID) is a registered instance any more
 //	mesh-topology:rows-added:refs-ignore-peer-name           added row whose Ref matches both a local proxy and an imported proxy that still has the upstream
 //	kind-service-names:connect-enabled-row-stale-online      lost connect-enabled row, no connect instance of the service exists any more
@@ -367,10 +367,6 @@ func (c *cutCtx) lostRow(t string, f map[string]string, raw string, add func(sig
 			add("mesh-topology:rows-lost:proxy-without-destination-instance", desc)
 			return
 		}
-		if gw != nil && strings.Contains(gw["Listeners"]+gw["Services"], `(Name="*"`) && !c.restoreWouldExpand(unq(gw["Kind"]), up) {
-			add("mesh-topology:rows-lost:wildcard-row-stale-online", desc)
-			return
-		}
 		// stale online row: none of the proxies it refers to exists any more (e.g. its node was renamed by ID)
 		if refs := refsOf(f); len(refs) > 0 {
 			stale := true
@@ -403,6 +399,15 @@ func (c *cutCtx) addedRow(t string, f map[string]string, raw string, add func(si
 	case "usage":
 		add("usage:"+unq(f["ID"])+":added", desc)
 		return
+	case "gateway-services":
+		// consequence of wildcard-overwrites-explicit-online: once the explicit row has been turned into a wildcard
+		// row, deregistering the service deletes it (cleanupGatewayWildcards); restore rebuilds the explicit row
+		svc := nested(f["Service"], "Name")
+		if ce := c.configEntry(unq(f["GatewayKind"]), nested(f["Gateway"], "Name")); ce != nil && f["FromWildcard"] == "" && svc != "*" &&
+			strings.Contains(ce["Services"], `(Name="*"`) && strings.Contains(strings.ToLower(ce["Services"]), `(name="`+strings.ToLower(svc)+`"`) {
+			add("gateway-services:wildcard-overwrites-explicit-online", desc)
+			return
+		}
 	case "mesh-topology":
 		// Refs are keyed node/serviceID without the peer: a local proxy re-registered without the upstream
 		// removed the row online although an imported proxy with the same node/id still has the upstream
